@@ -115,6 +115,7 @@ module ring
 props C08
 use common core
 use netmap be4
+relies netmap tick InvNoStale
 dialect neovm
 
 // C08: ring of the last N legacy snapshots and the per-epoch structured lists.
@@ -162,7 +163,7 @@ func dropNetmap(ctx, epoch)
 
 // Read side: snapshot(d) reads ring position d (d ticks ago), snapshotByEpoch(e) position C-e, both fault outside
 // 0 <= d < N (older than the ring or in the future: an error); an empty or missing slot reads as the empty map.
-// listNodes(e) walks the keys under p<be4(e)>: with NoStale there are none for epochs outside the window.
+// listNodes(e) walks the keys under p<be4(e)>: there are none for epochs outside the window (InvNoStale of module tick, relied on).
 func getSnapshot(ctx, key) (r)
   pure
   ensures store.has(key) ==> r == deser_L_Node(store.get(key))
@@ -193,7 +194,7 @@ func ListNodesEpoch(epoch) (r)
   requires 0 - 32768 <= epoch && epoch < 4294967296
   ensures [C08] r.prefix == pkey(epoch) && r.opts == 12 && r.pos == 0 && r.store == old(store)
   ensures [C08] store == old(store) && notifs == old(notifs)
-  ensures [C08] NoStale(store) && 1 <= epoch && (epoch <= C(store) - N(store) || epoch > C(store)) ==> forall x Bytes {store.opt(pkey(epoch) ++ x)} :: !store.has(pkey(epoch) ++ x)
+  ensures [C08] 1 <= epoch && (epoch <= C(store) - N(store) || epoch > C(store)) ==> forall x Bytes {store.opt(pkey(epoch) ++ x)} :: !store.has(pkey(epoch) ++ x)
 
 func ListNodes() (r)
   requires 0 <= C(store) && C(store) < 4294967296
@@ -205,9 +206,9 @@ func NewEpoch(epochNum)
   inputs
   requires epochNum < 4294967296
 
+// (NoStale holds on entry: package invariant InvNoStale of module tick, relied on)
 func UpdateSnapshotCount(count)
   requires C(store) < 4294967296
-  requires NoStale(store)
   cover [C08] W(alphabet()) && count > N(store) && count == 255
   cover [C08] W(alphabet()) && count == 1 && N(store) == 10 && id(store) == 5
   cover [C08] W(alphabet()) && count == 8 && N(store) == 10 && id(store) == 5
@@ -247,6 +248,7 @@ module tick
 props C06 C08 C09
 use common core
 use netmap be4
+use netmap ring
 relies netmap ring InvCounters
 dialect neovm
 
@@ -271,6 +273,10 @@ pure rpos(i Int, d Int, n Int) Int = i >= d ? i - d : i - d + n
 pure slot(s Store, d Int) Bytes = slotkey(rpos(id(s), d, N(s)))
 // no per-epoch node list outside the window of the last N epochs (same predicate as in module ring)
 pred NoStale(s Store) = forall e Int, x Bytes {s.opt(pkey(e) ++ x)} :: 1 <= e && e < 4294967296 && (e <= C(s) - N(s) || e > C(s)) ==> !s.has(pkey(e) ++ x)
+// ... for every history in which epochs advance by one per tick, as the Inner Ring does (C08's quantifier): ticks and count
+// changes preserve it by their contracts, no other method touches the per-epoch lists or the counters, the first deployment
+// starts without lists
+invariant InvNoStale [C08] = NoStale(store)
 // counters are initialised by deployment and kept well-formed (ring invariant, see module ring)
 pred WF(s Store) = s.has("snapshotCount") && s.has("snapshotCurrent") && s.has("snapshotEpoch")
                 && 1 <= N(s) && N(s) <= 255 && 0 <= id(s) && id(s) < N(s) && 0 <= C(s)
@@ -340,6 +346,7 @@ func cleanup(ctx, epoch)
 
 func NewEpoch(epochNum)
   requires epochNum < 4294967296
+  requires [C08] epochNum == C(store) + 1
   // the "if" direction, as reachability: an Alphabet-witnessed tick to a larger epoch can succeed, with and without an old list to drop
   cover [C06] W(alphabet()) && epochNum > C(store) && epochNum > N(store) && cnt(store, "e") > 0
   cover [C06] W(alphabet()) && epochNum == C(store) + 1 && epochNum <= N(store)
@@ -366,7 +373,7 @@ func NewEpoch(epochNum)
   ensures [C08] slot(store, 0) == slotkey(id(store))
   // C08, consecutive ticks keep the per-epoch lists inside the window of the last N epochs: the list of epoch e-N is dropped,
   // lists of other epochs are untouched
-  ensures [C08] epochNum == old(C(store)) + 1 && NoStale(old(store)) ==> NoStale(store)
+  // (NoStale after a consecutive tick is the package invariant InvNoStale, checked at every exit of this function)
   ensures [C08] forall e Int, x Bytes {store.opt(pkey(e) ++ x)} :: 0 <= e && e < 4294967296 && e != epochNum && e != epochNum - old(N(store)) ==> store.opt(pkey(e) ++ x) == old(store).opt(pkey(e) ++ x)
   // nothing else is written: counters, the ring slot, the epoch's list and the dropped list
   ensures [C06] forall x Bytes {store.opt(x)} :: x != "snapshotEpoch" && x != "snapshotBlock" && x != "snapshotCurrent" && x != slotkey(id(store))
@@ -563,6 +570,7 @@ module upgrade
 props C08 C16
 use common core
 use common vote
+use netmap be4
 relies netmap ring InvCounters
 dialect neovm
 
@@ -599,9 +607,14 @@ func _deploy(data, isUpdate)
   // the counters survive every upgrade path
   ensures [C16] isUpdate ==> store.opt("snapshotCount") == old(store).opt("snapshotCount") && store.opt("snapshotEpoch") == old(store).opt("snapshotEpoch")
         && store.opt("snapshotCurrent") == old(store).opt("snapshotCurrent")
+  // ... and so do the per-epoch node lists (with the counters: InvNoStale of module tick holds after an update if it held before)
+  ensures [C08,C16] isUpdate ==> forall e Int, x Bytes {store.opt("p" ++ fbe(e) ++ x)} :: 0 <= e && e < 4294967296 ==> store.opt("p" ++ fbe(e) ++ x) == old(store).opt("p" ++ fbe(e) ++ x)
   // the first deployment establishes the counters (base of the induction behind InvCounters of module ring): ten slots, position 0, epoch 0
   ensures [C08,C16] !isUpdate ==> store.has("snapshotCount") && store.has("snapshotCurrent") && store.has("snapshotEpoch")
         && N(store) == 10 && b2i(store.get("snapshotCurrent")) == 0 && b2i(store.get("snapshotEpoch")) == 0
+  // ... no per-epoch node list (base of InvNoStale of module tick; a contract is deployed with empty storage)
+  ensures [C08,C16] !isUpdate && (forall x Bytes {old(store).opt(x)} :: !old(store).has(x)) ==>
+        forall e Int, x Bytes {store.opt("p" ++ fbe(e) ++ x)} :: 0 <= e && e < 4294967296 ==> !store.has("p" ++ fbe(e) ++ x)
   // ... and ten empty snapshots
   ensures [C08,C16] !isUpdate ==> forall t Int {store.opt(slotkey(t))} :: 0 <= t && t < 10 ==> store.has(slotkey(t)) && len(deser_L_Node(store.get(slotkey(t)))) == 0
   loop 0
